@@ -8,6 +8,7 @@ import SygmaModel.Model.C01
 import SygmaModel.Model.C02
 import SygmaModel.Model.C14
 import SygmaModel.Model.C03
+import SygmaModel.Model.C16
 namespace Sygma.Pipeline
 
 /-- a proposal as the hash sees it (`Source`, `DepositNonce`, `ResourceId`, `Data`) -/
@@ -52,6 +53,15 @@ def subSignedDigests (H : C02.Hash) (chain : Nat) (ds : List (C01.Proposal × Op
 /-- the proposals committed to by the Substrate executor's digest(s) -/
 def subCommitted (ds : List (C01.Proposal × Option Bool)) : List (List C02.Prop') :=
   (C03.sub (subDelivery ds)).sessions.map fun idxs => idxs.filterMap fun i => (ds[i]?).map fun d => toProp' d.1
+
+/-! ### Bitcoin destination: the withdrawal transaction pays the relayed proposals -/
+
+/-- the proposals of a delivery as the Bitcoin executor's `rawTx` sees them; `dec` is the address decoder
+    (recipient bytes ↦ pay-to-address script, `none` = undecodable), a parameter -/
+def btcPrps (dec : Bytes → Option Bytes) (ps : List C01.Proposal) : List C16.Prp :=
+  ps.map fun p => match p.data with
+    | .btc a r => ⟨a, dec r⟩
+    | .evm _   => ⟨0, none⟩      -- not a Bitcoin proposal: never paid (no script)
 
 /-- deposits observed in one range, relayed to an EVM destination: the deposits whose handlers succeed become the delivery -/
 def deliver (ins : List (C01.Input × Bool)) : List Delivered :=
